@@ -60,6 +60,14 @@ func (c *Ctx) TokenGameRound(fs []Finding, ps []*prog.Program, o RoundOpts) erro
 	if len(scheds) == 0 {
 		return fmt.Errorf("%s: TLC exported no schedule", o.Label)
 	}
+	tagCount := map[string]int{}
+	for _, p := range ps {
+		for _, t := range p.Tags {
+			tagCount[t]++
+		}
+	}
+	c.Extra["program_tags:"+o.Label] = tagCount
+	c.Extra["schedules:"+o.Label] = len(scheds)
 	job := &Job{Programs: ps, Schedules: scheds, Opts: o.Job}
 	if job.Opts.Seed == 0 {
 		job.Opts.Seed = c.Seed
